@@ -106,6 +106,10 @@ type scenario struct {
 	clear    [][]unit
 	prot     []pu
 	results  []negRes
+	// split[i] > 0: that many bytes of the first unit of clear segment i travel at the
+	// end of segment i-1 (a unit split across two reads).  The model's view of the
+	// script is unchanged: the unit completes in segment i.
+	split []int
 }
 
 func (sc scenario) clearField() string {
@@ -492,10 +496,19 @@ func (c *ctx) exec(sc scenario, base *xmpp.StreamFeature) (res result) {
 		return u.bytes(&sc)
 	}
 	var clear [][]byte
-	for _, seg := range sc.clear {
+	for i, seg := range sc.clear {
 		var b []byte
-		for _, u := range seg {
-			b = append(b, spell(u)...)
+		for k, u := range seg {
+			ub := spell(u)
+			if k == 0 && i > 0 && i < len(sc.split) && sc.split[i] > 0 && len(ub) > 1 && len(clear[i-1]) > 0 {
+				n := sc.split[i]
+				if n > len(ub)-1 {
+					n = len(ub) - 1
+				}
+				clear[i-1] = append(clear[i-1], ub[:n]...)
+				ub = ub[n:]
+			}
+			b = append(b, ub...)
 		}
 		clear = append(clear, b)
 	}
